@@ -18,6 +18,7 @@ const (
 	Bool  Sort = "Bool"
 	Seq   Sort = "BSeq"   // uninterpreted sequences of Int (Boogie style axioms in the prelude)
 	Slice Sort = "Slice" // datatype (mkslice arr off len cap)
+	SList Sort = "SList" // immutable lists of strings ([]string by value)
 )
 
 func Arr(k, v Sort) Sort { return Sort("(Array " + string(k) + " " + string(v) + ")") }
@@ -312,6 +313,23 @@ func arith(op string, a, b *Term) *Term {
 	return App(op, Int, a, b)
 }
 
+// IsLitIte reports whether t is an ite chain whose leaves are integer literals.
+func IsLitIte(t *Term) bool {
+	if t.Op != "ite" {
+		_, ok := t.IsIntLit()
+		return ok
+	}
+	return IsLitIte(t.Args[1]) && IsLitIte(t.Args[2])
+}
+
+// MapIte applies f to the leaves of an ite chain.
+func MapIte(t *Term, f func(*Term) *Term) *Term {
+	if t.Op != "ite" {
+		return f(t)
+	}
+	return Ite(t.Args[0], MapIte(t.Args[1], f), MapIte(t.Args[2], f))
+}
+
 func Add(a, b *Term) *Term {
 	if x, ok := a.IsIntLit(); ok {
 		if y, ok := b.IsIntLit(); ok {
@@ -362,6 +380,12 @@ func Mul(a, b *Term) *Term {
 	}
 	if y, ok := b.IsIntLit(); ok && y == 1 {
 		return a
+	}
+	if b.Op == "ite" && IsLitIte(b) {
+		return MapIte(b, func(l *Term) *Term { return Mul(a, l) })
+	}
+	if a.Op == "ite" && IsLitIte(a) {
+		return MapIte(a, func(l *Term) *Term { return Mul(l, b) })
 	}
 	return arith("*", a, b)
 }
@@ -738,4 +762,43 @@ func (s *Script) Name(hint string, t *Term) *Term {
 	c := s.Fresh(hint, t.Sort)
 	s.Assert(&Term{Op: "=", Args: []*Term{c, t}, Sort: Bool}, "")
 	return c
+}
+
+// ---- string lists ---------------------------------------------------------------
+
+var LNil = Const("lnil", SList)
+
+func LLen(l *Term) *Term {
+	if l == LNil {
+		return IntLit(0)
+	}
+	return App("llen", Int, l)
+}
+func LAt(l, i *Term) *Term { return App("lat", Seq, l, i) }
+func LApp(a, b *Term) *Term {
+	if a == LNil {
+		return b
+	}
+	if b == LNil {
+		return a
+	}
+	return App("lapp", SList, a, b)
+}
+func LUnit(s *Term) *Term      { return App("lunit", SList, s) }
+func LSub(l, a, b *Term) *Term { return App("lsub", SList, l, a, b) }
+func LUpd(l, i, v *Term) *Term { return App("lupd", SList, l, i, v) }
+func LEq(a, b *Term) *Term {
+	if a == b {
+		return True
+	}
+	return App("leq", Bool, a, b)
+}
+
+// SAtOff is element i of the slice window starting at off of backing array b
+// (kept as one function so that patterns do not contain arithmetic).
+func SAtOff(b, off, i *Term) *Term {
+	if o, ok := off.IsIntLit(); ok && o == 0 {
+		return SAt(b, i)
+	}
+	return App("satoff", Int, b, off, i)
 }
